@@ -13,6 +13,9 @@ Engine E4, four exhaustively enumerated families, every element executed on fres
   IP  IRC pipeline: constructor -> request event -> real IRC component -> captured write -> bytes cut into reads ->
       real IRC component (Line + parsemsg) -> the response event must carry the command, prefix and arguments.
 
+  I2  two IRC components side by side on two channels: two message streams, each cut at every position, every
+      interleaving of the reads; each channel must see the response events of its own stream (as a lone component does).
+
 Oracles are written from the property statement:
   line: after every read the lines emitted so far (per socket) are exactly the complete lines of the bytes received so
         far (per socket) by a byte-scanning reference (terminator LF, one optional CR before it is dropped); after the
@@ -40,7 +43,7 @@ RULE = ('LC: every distinct byte stream of <= K tokens over {a, e-acute, CR, LF,
         'fresh Line under tick()-style flushing, + terminator probe; LS: every pair of (stream, composition) for two sockets '
         'with <= SEG segments in total x every interleaving; IR: Message(cmd, *args, prefix=p) and each constructor of '
         'irc/commands.py x every argument tuple over the 14-string alphabet (arity bounds in `bounds`; also as bytes); IP: constructors x '
-        'benign arguments through two real IRC components x every single cut / byte-at-a-time. non-trivial: line case with '
+        'benign arguments through two real IRC components x every single cut / byte-at-a-time; I2: two IRC components on two channels x two streams each cut at every position x every interleaving of the reads. non-trivial: line case with '
         'a terminator and >= 2 reads; IRC case with at least one argument/prefix/command other than a plain word; '
         'distinct = distinct (family, input, segmentation)')
 ASSUMPTIONS = [
@@ -606,6 +609,73 @@ def exec_pipe(name, args, mask, server):
     return obs, None
 
 
+# two IRC components side by side, each on its own channel (two client connections in one process)
+TWO_STREAMS = ((b'PRIVMSG alice :one a\r\nNICK al\r\n', b':srv NOTICE bob :two b\r\nPING srv\r\n'),
+               (b'JOIN #x\r\n', b'PART #y :bye now\r\n'))
+
+
+def _two_root(channels):
+    root = Collector()
+    for ch in channels:
+        IRC(channel=ch).register(root)
+    seen = root.seen
+
+    from circuits import handler
+
+    @handler(channel='*', priority=100)
+    def _tap(self, event, *args, **kwargs):
+        seen.append((event.name, tuple(map(repr, event.args)), tuple(event.channels)))
+    root.addHandler(_tap)
+    settle(root)
+    return root
+
+
+def _responses(root):
+    return [e for e in root.seen if e[0] not in SKIP_NAMES and not e[0].endswith(('_done', '_success', '_complete', '_failure'))]
+
+
+def exec_two(pair, ca, cb, order):
+    """streams A and B of TWO_STREAMS[pair], cut after ca / cb bytes (0: one piece), reads interleaved as `order`; the response
+    events on channel 'ca' ('cb') must be those of stream A (B) fed alone and in one piece to a lone IRC component -> (obs, failure)"""
+    sa, sb = TWO_STREAMS[pair]
+    want = {}
+    for ch, stream in (('ca', sa), ('cb', sb)):
+        lone = _two_root((ch,))
+        lone.fire(read(stream), ch)
+        settle(lone)
+        want[ch] = _responses(lone)
+    root = _two_root(('ca', 'cb'))
+    segs = {'A': [sa[:ca], sa[ca:]] if ca else [sa], 'B': [sb[:cb], sb[cb:]] if cb else [sb]}
+    for k in order:
+        root.fire(read(segs[k].pop(0)), 'ca' if k == 'A' else 'cb')
+        settle(root)
+    got = _responses(root)
+    obs = tuple(got)
+    for ch in ('ca', 'cb'):
+        mine = [e for e in got if ch in e[2]]
+        if mine != want[ch] or root.errors:
+            return obs, ('irc:two-components:stream-mixed-or-lost', 'two IRC components on channels ca/cb, reads %r: the response events on channel %s are %r '
+                         '(errors %r); the same stream fed to a lone component gives %r' % (
+                             [(k, x) for k, x in zip(order, _order_segs(sa, ca, sb, cb, order))], ch, mine, root.errors, want[ch]))
+    stray = [e for e in got if not (set(e[2]) & {'ca', 'cb'})]
+    if stray:
+        return obs, ('irc:two-components:stray-events', 'response events on neither channel: %r' % (stray,))
+    return obs, None
+
+
+def _order_segs(sa, ca, sb, cb, order):
+    segs = {'A': [sa[:ca], sa[ca:]] if ca else [sa], 'B': [sb[:cb], sb[cb:]] if cb else [sb]}
+    return [segs[k].pop(0) for k in order]
+
+
+def two_cases():
+    for pair, (sa, sb) in enumerate(TWO_STREAMS):
+        for ca in range(0, len(sa)):
+            for cb in range(0, len(sb)):
+                for order in interleavings(2 if ca else 1, 2 if cb else 1):
+                    yield pair, ca, cb, order
+
+
 def _make_tap(seen):
     from circuits import handler
 
@@ -628,6 +698,9 @@ def work_items(tier):
         yield ('IR', g)
     for name, args in pipe_cases():
         yield ('IP', (name, args))
+    for pair in range(len(TWO_STREAMS)):
+        for ca in range(0, len(TWO_STREAMS[pair][0])):
+            yield ('I2', (pair, ca))
 
 
 def hexs(b):
@@ -713,6 +786,21 @@ def _work(part, nparts, payload):
                 elif sampler and status not in sampled and len(case['args']) >= 2 and (status == 'rejected' or ' ' in case['args'][-1]):
                     sampled.add(status)
                     st.sample({'family': 'irc', 'case': case_text(case), 'status': status, 'wire': repr(wire), 'detail': detail})
+        elif fam == 'I2':
+            pair, ca = item
+            for p, a, cb, order in two_cases():
+                if (p, a) != (pair, ca):
+                    continue
+                obs, fail = exec_two(pair, ca, cb, order)
+                st.executions += 1
+                st.transitions += len(order)
+                st.counters['I2_executions'] += 1
+                st.outcome(('I2', pair, obs))
+                if ca and cb and order not in ('AABB', 'BBAA'):
+                    st.interesting(('I2', pair, ca, cb, order))
+                    st.counters['I2_partial_line_of_one_stream_pending_while_the_other_is_read'] += 1
+                if fail:
+                    st.fail(fail[0], fail[1], {'family': 'I2', 'pair': pair, 'ca': ca, 'cb': cb, 'order': order})
         else:
             name, args = item
             pure = run_irc({'ctor': name, 'command': name, 'has_prefix': False, 'prefix': None, 'args': args})[0]
@@ -768,7 +856,8 @@ def run(tier, seed, workers):
         st.selfcheck_errors.append('enumeration IR: %d of %d' % (st.counters['IR_executions'], exp_ir))
     for c in ('LC_cut_between_CR_and_LF', 'LC_cut_inside_multibyte_char', 'LC_tail_held_across_reads',
               'LS_read_while_other_socket_tail_pending', 'IR_rejected', 'IR_serialised_and_parsed_back',
-              'IR_cases_with_CR_or_LF_somewhere', 'IR_cases_with_bytes_arguments', 'IP_executions'):
+              'IR_cases_with_CR_or_LF_somewhere', 'IR_cases_with_bytes_arguments', 'IP_executions',
+              'I2_partial_line_of_one_stream_pending_while_the_other_is_read'):
         if not st.counters[c]:
             st.selfcheck_errors.append('vacuity: counter %s is 0' % c)
     if len(CTORS) < 17:
@@ -804,6 +893,10 @@ def replay(wit):
         status, wire, detail = run_irc(case)
         fail = None if status in ('ok', 'rejected') else (classify_irc(case, status)[0], detail)
         text = '%s\nstatus: %s\nwire: %r\n%s\n' % (case_text(case), status, wire, detail)
+    elif fam == 'I2':
+        obs, fail = exec_two(wit['pair'], wit['ca'], wit['cb'], wit['order'])
+        text = 'two IRC components on channels ca / cb, streams %r cut after %d / %d bytes, order %s\nresponse events: %r\n' % (
+            TWO_STREAMS[wit['pair']], wit['ca'], wit['cb'], wit['order'], obs)
     else:
         obs, fail = exec_pipe(wit['ctor'], wit['args'], wit['mask'], wit['server'])
         text = '%s%r through IRC -> write -> cut mask %d -> IRC (%s mode)\nobserved: %r\n' % (
